@@ -59,10 +59,6 @@ package lnd
 //@ sets ghost.publishedBytes = in.TxHex
 //@ assigns nothing
 
-//@ extern wire (*MsgTx).TxHash
-//@ pure
-//@ extern chainhash (Hash).String
-//@ pure
 
 //@ func (*Client).CreateOpeningTransaction
 //@ property C08
@@ -72,3 +68,34 @@ package lnd
 //@ ensures @C08 vout-of-announced-tx: result5 == nil ==> ghost.voutCheckedHex == result0
 //@ ensures @C08 vout-is-verified-index: result5 == nil ==> ghost.voutChecked == result4
 //@ ensures @C08 txid-of-published-tx: result5 == nil ==> (ghost.decodedBytes == hex.DecodeString(result0) && result2 == ghost.decodedTx.TxHash().String())
+
+// ---------------------------------------------------------------------------
+// C03 (LND wallet adapter): every spending transaction spends the output a
+// successful GetVoutAndVerify found in claimParams.OpeningTxHex, pays an address
+// lnd just issued, uses nSequence 0 (preimage, cooperative) or 1008 (CSV refund)
+// and carries the witness of its path.
+// ---------------------------------------------------------------------------
+//@ func (*Client).NewAddress
+//@ property C03
+//@ requires l != nil
+//@ sets ghost.walletAddr = result0
+//@ assigns nothing
+
+//@ func (*Client).CreatePreimageSpendingTransaction
+//@ property C03
+//@ requires l != nil && l.bitcoinOnChain != nil && swapParams != nil && claimParams != nil
+//@ ensures @C03 no-relative-lock: result3 == nil ==> ghost.spendCsv == 0
+//@ ensures @C03 preimage-witness: result3 == nil ==> ghost.witnessKind == 1
+//@ ensures @C03 pays-the-returned-address: result3 == nil ==> result2 == ghost.spendAddr
+//@ func (*Client).CreateCsvSpendingTransaction
+//@ property C03
+//@ requires l != nil && l.bitcoinOnChain != nil && swapParams != nil && claimParams != nil
+//@ ensures @C03 sequence-is-the-script-csv: result3 == nil ==> ghost.spendCsv == 1008
+//@ ensures @C03 csv-witness: result3 == nil ==> ghost.witnessKind == 2
+//@ ensures @C03 pays-the-returned-address: result3 == nil ==> result2 == ghost.spendAddr
+//@ func (*Client).CreateCoopSpendingTransaction
+//@ property C03
+//@ requires l != nil && l.bitcoinOnChain != nil && swapParams != nil && claimParams != nil
+//@ ensures @C03 no-relative-lock: result3 == nil ==> ghost.spendCsv == 0
+//@ ensures @C03 cooperative-witness: result3 == nil ==> ghost.witnessKind == 3
+//@ ensures @C03 pays-the-returned-address: result3 == nil ==> result2 == ghost.spendAddr
